@@ -169,6 +169,15 @@ func c19Build(seed uint64, cell c19Cell) *c19Case {
 		partner := cell.i
 		injected = randNetpol(r, &f, nps[partner].NS, nps[partner].Name)
 		c.tokens = []string{nps[partner].Name}
+		if cell.detail == "defaultns" {
+			// the same place spelled twice: one policy says namespace: default, the other says nothing
+			nps[partner] = randNetpol(r, &f, "default", nps[partner].Name)
+			injected = randNetpol(r, &f, "", nps[partner].Name)
+			if r.chance(1, 2) {
+				nps[partner], injected = injected, nps[partner]
+			}
+			group = nps
+		}
 		others = append(others, anps...)
 	case "twoBANP":
 		first := randBANP(r, &f, "default")
@@ -419,6 +428,13 @@ func c19Cells(tier string, seed uint64) (cells []c19Cell, exhaustiveUpTo int) {
 	pairCells("samePriority", full)
 	pairCells("dupANPName", full/2)
 	pairCells("dupNPName", 6)
+	for n := 1; n <= 4; n++ {
+		for i := 0; i < n; i++ {
+			for j := 0; j <= n; j++ {
+				add(c19Cell{kind: "dupNPName", n: n, i: i, j: j, order: "sorted", detail: "defaultns"})
+			}
+		}
+	}
 	for n := 0; n <= full; n++ {
 		for _, o := range c19Orders {
 			if n <= 1 && o != "sorted" {
